@@ -67,7 +67,8 @@ reg('C04', True,
     'flag is false or isSatisfied of the stored cost (frozen alias table); isCostBetterThan is strict <; 12 frozen '
     'incumbent-update sites store the new cost only under isCostBetterThan(new, incumbent) with that argument order '
     '(first-solution / objective-satisfied idioms as reasoned exceptions), resets only outside loops; PathGeometric::cost '
-    'and length are the adjacent-pair folds. Not decided: stored cost vs true cost for planners with deferred '
+    'and length are the adjacent-pair folds; parent, cost and incCost of an RRT* node are assigned together at every '
+    're-parenting. Not decided: stored cost vs true cost for planners with deferred '
     'propagation, admissibility of heuristics, BIT*/LBTRRT incumbent idioms (listed).',
     'clang 14 AST/CFG of 17 units; the objective\'s virtual cost functions are opaque',
     'finite-domain abstract evaluation (strict weak order + spec table) + call-site argument agreement + guard shape')
@@ -127,7 +128,9 @@ reg('C03', True,
     'from a solve(); every clear() override chains to its base and resets node-pointer members assigned by solve(); '
     'pointer members deleted in re-runnable functions are re-assigned; PlannerInputStates resets every per-query field, '
     'clears iff the problem definition changed and hands out only states that passed satisfiesBounds and isValid; '
-    'growth loops consult the termination condition; setProblemDefinition overrides clear the query unconditionally. '
+    'growth loops consult the termination condition; setProblemDefinition overrides clear the query unconditionally; '
+    'functions that empty a raw-pointer tree index drain every local work-list they filled (re-add or free); the '
+    'RRTConnect side flag that selects the approximate solution agrees with the tree that owns the candidate. '
     'Not decided: a bound on further evaluations, cost monotonicity across resumed solves (C04), leaks inside callee '
     'libraries.',
     'clang 14 AST/CFG of 131 units (all geometric, control and multilevel planners); call graph by CHA',
@@ -141,7 +144,9 @@ reg('C01', True,
     '32 solve() functions status, approximate flag and registration agree; the node recorded as (approximate) solution '
     'is the node whose state goal->isSatisfied tested; PathGeometric::check covers state 0 and every adjacent pair; path '
     'assembly loops cover every extracted node; interpolation parameters A/D are guarded by D > A or followed by '
-    'enforceBounds before use. Not decided: correctness of checkMotion itself (C05), bounds of interpolated states in '
+    'enforceBounds before use; a scratch connection target is reloaded before it is handed again to a callee that may '
+    'truncate it (BiTRRT); RRTConnect\'s side flag tgi.start designates the tree that holds tgi.xmotion at every read. '
+    'Not decided: correctness of checkMotion itself (C05), bounds of interpolated states in '
     'general, "no stretch longer than twice the resolution", BIT*/AIT*/EIT* edge bookkeeping beyond what is listed.',
     'clang 14 AST/CFG of 115 units; the validity checker and goal are opaque',
     'guard dominance and path-sensitive typestate over clang CFG with verdict-relevance slicing + call-site agreement')
